@@ -182,8 +182,8 @@ def oracles(spec: dict, inputs: list[dict], r: dict, base: list) -> list[dict]:
                         continue
                     V.append(_v("isolation", f"{op}|{procworld._pclass(path)}", f"proc {pi} {op} {path} at seq {seq}: the entry belongs to the live run of proc {owner[top]}", pi))
                     flagged_iso = True
-            if op in ("unlink", "rmdir") and natural == 0 and path == top:
-                owner.pop(top, None)
+            if op in ("unlink", "rmdir", "rename") and natural == 0 and path == top:
+                owner.pop(top, None)  # (a rename moves the entry away; the new name, if below a temp root, is unowned)
     # ---- [leftover] (covers [decoy]: foreign entries must be untouched)
     ini, fin = r["initial"], r["final"]
     left: dict = {}
